@@ -1,0 +1,54 @@
+//go:build verif
+
+package loom
+
+import "unsafe"
+
+// Verification hooks (build tag verif). A harness installs VerifYield to take control of
+// every preemption point of the lock-free code; without the tag verifYield is a no-op.
+
+// Yield sites.
+const (
+	VerifSiteQueueLoad = 1 + iota
+	VerifSiteQueueCas
+	VerifSiteWheelFetchLoadPosition
+	VerifSiteWheelFetchLoadSlot
+	VerifSiteWheelFetchReloadPosition
+	VerifSiteWheelTickLoadPosition
+	VerifSiteWheelTickLoadSlot
+	VerifSiteWheelTickStorePosition
+	VerifSiteWheelTickStoreSlot
+	VerifSiteWheelTickClose
+	VerifSiteTryLockCas1
+	VerifSiteTryLockLoad
+	VerifSiteTryLockCas2
+	VerifSiteFlagLoad
+	VerifSiteFlagCas
+	VerifSiteAddIfLoad
+	VerifSiteAddIfCas
+	VerifSiteWcLoadState
+	VerifSiteWcBeforeLock
+	VerifSiteWcAfterLock
+	VerifSiteWcAfterUnlock
+	VerifSiteWcStoreState
+)
+
+// VerifYield is called before each shared-memory access of the instrumented functions.
+var VerifYield func(site int)
+
+func verifYield(site int) {
+	if VerifYield != nil {
+		VerifYield(site)
+	}
+}
+
+// VerifTick runs one tick of the wheel on the calling goroutine.
+func (wheel *Wheel) VerifTick() {
+	wheel.onTicker()
+}
+
+// VerifStateWord exposes the address of the sync.Mutex state word (for TryLock/Count
+// checks against harness-constructed words).
+func (m *Mutex) VerifStateWord() *int32 {
+	return (*int32)(unsafe.Pointer(&m.Mutex))
+}
